@@ -288,3 +288,24 @@ pub proof fn lemma_undo_filepatch(fp: FilePatch<&[u8]>, mf0: ModifiedFile, d: Pa
         lemma_undo_whole_file(fp, mf0, d, f, rep, mf1, cur, fz, r2, fin);
     }
 }
+
+/// the patched file is at most the original plus all hunk lines (so it stays within the machine bound)
+pub proof fn lemma_patched_len(fp: FilePatch<&[u8]>, mf0: ModifiedFile, d: PatchDirection, f: usize, rep: FilePatchApplyReport, mf1: ModifiedFile)
+    requires
+        filepatch_wf(fp), mf0.content@.len() < BIG(),
+        apply_post(fp, mf0, d, f, rep, mf1),
+    ensures
+        mf1.content@.len() <= mf0.content@.len() + hunks_total(fp.hunks@, fp.hunks@.len() as int),
+{
+    let hs = fp.hunks@;
+    let n = hs.len() as int;
+    lemma_total_mono(hs, 0, n);
+    if fp.kind == FilePatchKind::Modify {
+        let c0 = deep(mf0.content@);
+        lemma_out_len(c0, hs, d, rep.hunk_reports@, n);
+        assert(deep(mf1.content@).len() == mf1.content@.len());
+    } else {
+        assert(n == 1);
+        assert(hunks_total(hs, 1) == hunks_total(hs, 0) + hs[0].remove.content@.len() + hs[0].add.content@.len());
+    }
+}
